@@ -108,14 +108,13 @@ class Breakage:
 
     @property
     def _location(self) -> Path:
-        # Absolute file path probably means temporary worktree.
-        # We use our worktree prefix to remove some components
-        # of the path on the left (`/tmp/griffe-worktree-*/griffe_*/repo`).
-        if self._relative_filepath.is_absolute():
-            parts = self._relative_filepath.parts
-            for index, part in enumerate(parts):
-                if part.startswith(_WORKTREE_PREFIX):
-                    return Path(*parts[index + 2 :])
+        # A file in a temporary worktree: we use our worktree prefix to remove some components
+        # of the path on the left (`/tmp/griffe-worktree-*/griffe_*/repo`). The path is usually absolute,
+        # but it is relative when the working directory is the temporary directory itself (or above it).
+        parts = self._relative_filepath.parts
+        for index, part in enumerate(parts):
+            if part.startswith(_WORKTREE_PREFIX):
+                return Path(*parts[index + 2 :])
         return self._relative_filepath
 
     @property
